@@ -89,7 +89,19 @@ class LinRecorder:
     def __init__(self, W, D, NS, rng):
         self.W, self.D, self.NS = W, D, NS
         self.rng = rng
-        self.slots = [impl.countmin.CountMinLinear(W, D) for _ in range(NS)]
+        # sketches are built through every documented route: the class, the class with its default
+        # depth, the CountMin() factory (positional and keyword forms)
+        def build(i):
+            cm = impl.countmin
+            if D == 8 and i % 2 == 0:
+                return cm.CountMinLinear(W)
+            return [lambda: cm.CountMinLinear(W, D), lambda: cm.CountMin("linear", W, D),
+                    lambda: cm.CountMin("linear", width=W, depth=D, max_count=77, num_reserved=3),
+                    lambda: cm.CountMinLinear(width=W, depth=D, shared_memory=False)][i % 4]()
+        self.slots = [build(i) for i in range(NS)]
+        for sk in self.slots:
+            if type(sk) is not impl.countmin.CountMinLinear or int(sk.width) != W or int(sk.depth) != D:
+                raise MachineryError("constructor returned %r %sx%s for %dx%d" % (type(sk), sk.width, sk.depth, W, D))
         self.keys = {}
         self.events = []
 
@@ -119,7 +131,8 @@ class LinRecorder:
     def update_list(self, s, ks):
         for k in ks:
             self.key(k)
-        self.slots[s].update(list(ks))
+        form = len(self.events) % 3          # a list, a tuple, a generator: any iterable of keys
+        self.slots[s].update(list(ks) if form == 0 else tuple(ks) if form == 1 else (k for k in ks))
         self.emit({"ev": "update_list", "s": s + 1, "ks": [kb(k) for k in ks]})
 
     def update_dict(self, s, kvs):
@@ -127,6 +140,9 @@ class LinRecorder:
         for k, v in kvs:
             self.key(k)
             d[k] = v
+        if len(self.events) % 2:
+            import collections
+            d = collections.Counter(d)       # "follows the convention of collections.Counter"
         self.slots[s].update(d)
         self.emit({"ev": "update_dict", "s": s + 1, "kvs": [[kb(k), big(v)] for k, v in d.items()]})
 
@@ -198,7 +214,7 @@ def random_history(rng, focus=None, n_events=None):
     None (all), 'ceiling' (values around 2^32-1, repeated after saturation), 'batch'
     (update/ngram entry points), 'merge'."""
     W = rng.choice([1, 1, 2, 2, 3, 4, 5, 8, 13, 16, 32, 64])
-    D = rng.choice([1, 1, 2, 2, 3, 4, 8])
+    D = rng.choice([1, 1, 2, 2, 3, 4, 8, 8])
     if W * D > 128:
         D = max(1, 128 // W)
     NS = rng.choice([1, 2, 2, 3, 4])
@@ -220,7 +236,7 @@ def random_history(rng, focus=None, n_events=None):
             elif x < 0.9:
                 rec.query(s, k)
             else:
-                rec.saveload(s, t, rng.randrange(2)) if s != t else rec.add(s, k, 1)
+                rec.saveload(s, t, rng.randrange(3)) if s != t else rec.add(s, k, 1)
             continue
         if focus == "batch":
             x = 0.3 + 0.45 * rng.random() if rng.random() < 0.75 else x
@@ -247,7 +263,7 @@ def random_history(rng, focus=None, n_events=None):
             rec.merge(s, t)
         elif x < 0.90:
             if s != t:
-                rec.saveload(s, t, rng.randrange(2))
+                rec.saveload(s, t, rng.randrange(3))
             else:
                 rec.query(s, k, getitem=True)
         elif x < 0.93:
